@@ -3,7 +3,7 @@
    `node`s (the Renderables the parser builds); `render` transcribes every render_to.
    Recursion is structural on the template; only partial inclusion needs fuel (`rec`). *)
 From Coq Require Import SpecFloat.
-From LV Require Export Value Stack Utf8 Filters_math Filters_html Filters_seq Filters_date.
+From LV Require Export Value Stack Utf8 Filters_math Filters_html Filters_seq Filters_date Filters_extra.
 
 (* ---- registers (runtime.rs Registers: InterruptRegister, CycleRegister, ChangedRegister) ---- *)
 Inductive interrupt := Brk | Cont.
@@ -37,7 +37,7 @@ Definition sink0 : sink := mkSink [] None.
 Inductive expr :=
 | ELit (v : value)
 | EVar (root : scalar) (idx : list expr).     (* Variable { variable, indexes } *)
-Inductive filt := FM (f : mathf) | FH (f : htmlf) | FS (f : seqf) | FD.     (* FD: the date filter *)
+Inductive filt := FM (f : mathf) | FH (f : htmlf) | FS (f : seqf) | FD | FX (f : extf).     (* FD: the date filter; FX: jekyll / shopify filters *)
 Definition fchain := (expr * list (filt * list expr))%type.     (* FilterChain { entry, filters } *)
 Inductive cmpop := OpEq | OpNe | OpLt | OpGt | OpLe | OpGe | OpContains.
 Inductive cond :=
@@ -115,6 +115,7 @@ Definition apply_filter (f : filt) (input : value) (args : list value) : res val
   | FH h => match args with [] => html_filter O h input | _ => Err EParse end
   | FS q => seq_filter O q input args
   | FD => date_filter O input args
+  | FX x => extra_filter O x input args
   end.
 (* FilterChain::evaluate *)
 Fixpoint apply_filters (v : value) (fs : list (filt * list expr)) (s : est) : res value :=
